@@ -101,6 +101,57 @@ def functor_applications(f):
     return out
 
 
+def _drained_when_owned(f, la, drain_pos, app_pos):
+    """path-sensitive on lock ownership: on every way to app_pos ON WHICH THE LOCK IS OWNED, a drain was executed.
+    Abstract state: set of (owned?, drained?) pairs; a branch whose outcome the lock analysis refines (owns_lock(),
+    operator bool of the lock or of a guard object wrapping it) keeps only the matching pairs."""
+    def owned_at_entry(b):
+        st = la.block_in.get(b) or {}
+        vals = {v.st for v in st.values() if v.mutex == "this.m_mutex"}
+        return vals
+    block_in = {f.entry: frozenset([(False, False)])}
+    work = [f.entry]
+    it = 0
+    result = None
+    while work and it < 4000:
+        it += 1
+        b = work.pop(0)
+        cur = set(block_in[b])
+        blk = f.blocks[b]
+        for i in range(len(blk.elems)):
+            pos = (b, i)
+            if pos == app_pos:
+                # ownership as the lock analysis knows it here decides which pairs are real
+                own_here = {v.st for v in la.state_at(pos).values() if v.mutex == "this.m_mutex"}
+                live = [p_ for p_ in cur if p_[0] or own_here != {HELD}]
+                bad = [p_ for p_ in cur if p_[0] and not p_[1]]
+                result = (result if result is not None else True) and not bad
+            if pos in drain_pos:
+                cur = {(o, True) for o, _d in cur}
+            # acquisition events flip ownership to 'maybe owned': split
+            for ev in la.acquire_events:
+                if tuple(ev[0]) == pos and ev[2].mutex == "this.m_mutex":
+                    cur = {(True, d_) for _o, d_ in cur} | {(False, d_) for _o, d_ in cur} if ev[3] is not True else {(True, d_) for _o, d_ in cur}
+        for idx, s_ in enumerate(blk.succs):
+            if s_ is None:
+                continue
+            nxt = set(cur)
+            # refine by what the lock analysis knows on this edge (the outcome of an ownership test)
+            est = la.edge_out.get((b, idx))
+            own = {v.st for v in est.values() if v.mutex == "this.m_mutex"} if est is not None else owned_at_entry(s_)
+            if own == {HELD}:
+                nxt = {p_ for p_ in nxt if p_[0]}
+            elif own and HELD not in own and MAYBE not in own:
+                nxt = {p_ for p_ in nxt if not p_[0]}
+            old = block_in.get(s_)
+            j_ = frozenset(nxt) if old is None else (old | frozenset(nxt))
+            if old is None or j_ != old:
+                block_in[s_] = j_
+                if s_ not in work:
+                    work.append(s_)
+    return bool(result)
+
+
 def submit(ctx):
     rid = "C06.submit"
     ctx.rule(rid, "submit: exclusive try lock; owned branch drains before applying; other branch enqueues before "
@@ -126,6 +177,8 @@ def submit(ctx):
                 ctx.ob(rid, ok, f.loc(a), "the direct application runs with m_mutex held exclusively",
                        "" if ok else "lock not known to be owned here", fn=f.label, inst=f.qname)
                 ok = any(f.dominates(f.pos_of(d), ap) and f.pos_of(d) != ap for d in drains)
+                if not ok and drains:
+                    ok = _drained_when_owned(f, la, [tuple(f.pos_of(d)) for d in drains if f.pos_of(d)], tuple(ap))
                 ctx.ob(rid, ok, f.loc(a), "queued work is drained before the functor is applied (older submissions first)",
                        "" if ok else "no do_pending_writes_internal() dominates the application", fn=f.label, inst=f.qname)
             enq = enqueue_sites(f, la)
